@@ -77,8 +77,8 @@ def replay_kani(prop, result, tier, scratch=None, watchdog_s=20):
             os.close(fd)
         with open(plog, "a") as f:
             f.write(f"##### attempt {attempt} mem={mem}G\n" + text[-20000:] + "\n")
-        if _extract_tests(text):
-            break
+        if any(t[0] != "cover" for t in _extract_tests(text)):
+            break   # (a check reported as ERROR - solver out of memory on that query - yields no test: retry)
     tests = _extract_tests(text)
     fail_descs = [c.get("desc", "") for c in result["parsed"].get("fail_list", [])]
     cand = [t for t in tests if t[0] != "cover"]
